@@ -42,7 +42,7 @@ P = {
             'hash, every member to the foreign hash, to the empty string, to arbitrary text) and with a member\'s From forged. Oracle per '
             'lookup: a returned message has AsTransaction().Hash() = the REQUESTED hash, recorded Hash = its Ethereum hash, and the sender '
             '(real signer), all fields and the fee / cost / effective price / effective fee / effective cost figures of the original '
-            'transaction with that hash; the hash of a member must be found; a hash no member has must be refused. The model (unwrap_scan) is '
+            'transaction with that hash, and GetSender(chain id) and GetSigners() of the returned message and, afterwards, of every member of the decoded envelope and of the reused message objects are the go-ethereum signer of that message; the hash of a member must be found; a hash no member has must be refused. The model (unwrap_scan) is '
             'compared on found / not found, the position of the member returned and the Hash and From of every member after the call (in '
             'the quick tier on the lookups of every third generated transaction and on the whole corpus; in the thorough tier on all); '
             'non-trivial = some lookup of the case was answered and some refused',
